@@ -214,6 +214,13 @@ func (c *SimConn) Read(b []byte) (int, error) {
 			h.ensureWaker(now, h.deadline)
 		}
 		h.cond.Wait()
+		// Whoever woke us is still acting at this very instant. Look at the
+		// state only at an instant of our own class, when the waker has run
+		// to its next blocking point: what we then see does not depend on
+		// how two goroutines runnable at one instant were scheduled.
+		h.mu.Unlock()
+		sleepClass(h.rclass, 0)
+		h.mu.Lock()
 	}
 }
 
@@ -445,6 +452,7 @@ func (l *SimListener) WaitAccepting() {
 		l.cond.Wait()
 	}
 	l.mu.Unlock()
+	sleepClass(classMain, 0)
 }
 
 func NewSimListener(class int) *SimListener {
@@ -499,6 +507,9 @@ func (l *SimListener) Accept() (net.Conn, error) {
 			continue
 		}
 		l.cond.Wait()
+		l.mu.Unlock()
+		sleepClass(l.class, 0)
+		l.mu.Lock()
 	}
 }
 
